@@ -36,7 +36,8 @@ enum FaultKind
     F_ALL11 = 9, // every imported file becomes a CellML 1.1 document (a model library in the old format); a = which of them carry benign noise
     F_RESTORE = 10,
     F_ENTITYFLAW = 11, // an entity other files import gets a parser error of its own (a = pick, b = flavour: element / first variable)
-    F_ENTITYGONE = 12 // an entity other files import is renamed in the file that defines it (a = pick)
+    F_ENTITYGONE = 12, // an entity other files import is renamed in the file that defines it (a = pick)
+    F_EMPTYHREF = 13 // an import element loses its URL (xlink:href=""); a = import element index inside the file
 };
 
 struct Fault
@@ -60,6 +61,7 @@ const char *faultName(int k)
     case F_RESTORE: return "restore";
     case F_ENTITYFLAW: return "entityflaw";
     case F_ENTITYGONE: return "entitygone";
+    case F_EMPTYHREF: return "emptyhref";
     }
     return "?";
 }
@@ -130,6 +132,9 @@ std::vector<Fault> singleFaults(const Graph &g)
         for (size_t k = 0; k < imps.size(); ++k) {
             out.push_back({F_REFBREAK, long(f), long(k), 0});
             out.push_back({F_BACKEDGE, long(f), long(k), 0});
+            if (k == 0) {
+                out.push_back({F_EMPTYHREF, long(f), long(k), 0});
+            }
         }
     }
     return out;
@@ -251,7 +256,7 @@ Plan generate(Rng &rng, const Opts &opts, uint64_t runIndex)
     // swarm: enabled fault kinds for this run
     std::vector<Fault> enabled;
     std::set<int> kinds;
-    for (int k : {F_ABSENT, F_UNREADABLE, F_TRUNCATE, F_READFAIL, F_REPLACE, F_REFBREAK, F_BACKEDGE, F_UNITSCYCLE, F_ALL11, F_ENTITYFLAW, F_ENTITYGONE}) {
+    for (int k : {F_ABSENT, F_UNREADABLE, F_TRUNCATE, F_READFAIL, F_REPLACE, F_REFBREAK, F_BACKEDGE, F_UNITSCYCLE, F_ALL11, F_ENTITYFLAW, F_ENTITYGONE, F_EMPTYHREF}) {
         if (rng.chance(1, 2)) {
             kinds.insert(k);
         }
@@ -339,6 +344,8 @@ struct ImporterState
     bool strict = true;
     std::map<std::string, int> refLibrary; // library key -> version id it holds
     std::set<std::string> hrefKeys; // keys under which the client stored models itself (URLs as written)
+    std::set<long> baseModesUsed; // how base paths were spelt in resolutions since the library was last emptied: library models keep
+                                  // the links they were given, and those lead to keys in the spelling of that time
     std::map<std::string, long> refSeq; // library key -> when it entered the library (models that were there before may be linked to what it replaces)
     long seq = 0;
     bool usedSinceClear = false;
@@ -351,6 +358,7 @@ struct Client
     FileSpec rootSpec;
     int rootFile = -1;
     int rootVersion = -1;
+    long baseMode = 0;
     std::string base; // the base path the client passes to resolveImports(): its root file's directory, spelt absolutely or relative to the working directory
     long answerEpoch = -1; // world epoch at which `answer` was given (-1: none)
     std::string answer; // verdict and issues of this client's last RESOLVE
@@ -528,6 +536,22 @@ struct World
                 spec.units[ir.index].ref = "nosuch_entity";
             } else {
                 spec.comps[ir.index].ref = "nosuch_entity";
+            }
+            v = makeVersion(spec);
+            break;
+        }
+        case F_EMPTYHREF: {
+            auto imps = importsOf(spec);
+            if (imps.empty()) {
+                return;
+            }
+            auto &ir = imps[size_t(f.a) % imps.size()];
+            if (ir.isUnits) {
+                spec.units[ir.index].href = "";
+                spec.units[ir.index].targetFile = -1;
+            } else {
+                spec.comps[ir.index].href = "";
+                spec.comps[ir.index].targetFile = -1;
             }
             v = makeVersion(spec);
             break;
@@ -1030,6 +1054,7 @@ void execute(const Plan &plan, Ctx &ctx)
             {
                 std::string rel = relativeDir(w.vfs.cwd, v->spec.dir);
                 long mode = ((s.arg(1) % 3) + 3) % 3;
+                c.baseMode = mode;
                 c.base = mode == 0 ? v->spec.dir : (mode == 1 ? rel : "./" + rel);
                 c.rootSpec.rawDir = libraryNormaliseBase(c.base);
                 c.rootSpec.rawDirSet = true;
@@ -1045,6 +1070,7 @@ void execute(const Plan &plan, Ctx &ctx)
             ++epoch;
             imp.importer->removeAllModels();
             imp.refLibrary.clear();
+            imp.baseModesUsed.clear();
             imp.hrefKeys.clear();
             imp.refSeq.clear();
             for (auto &cl : clients) {
@@ -1163,6 +1189,10 @@ void execute(const Plan &plan, Ctx &ctx)
                 if (cur == nullptr || cur->id != (heldVersion.originId >= 0 ? heldVersion.originId : heldVersion.id)) {
                     stale = true;
                 }
+            }
+            imp.baseModesUsed.insert(c.baseMode);
+            if (imp.baseModesUsed.size() > 1 && imp.importer->libraryCount() > 0) {
+                stale = true; // models already in the library may be linked to keys in another spelling
             }
             if (unknownKey) {
                 ctx.violate("C07", "harness-untracked-library-key", "", "the library holds a key the reference does not know");
@@ -1344,6 +1374,11 @@ void execute(const Plan &plan, Ctx &ctx)
                 bool k1Variant = false;
                 if (undetermined) {
                     ctx.count("resolve_undetermined");
+                    // (only termination is claimed for the verdict; but a resolution that says true leaves nothing unresolved)
+                    if (real && unresolved && !knownShape && firstUnresolved(c.root) == "closure-fully-linked") {
+                        ctx.violate("C07", "resolved-but-has-unresolved-imports", "closure-fully-linked,cyclic-ordinary-units", "resolveImports returned true and every import of the closure has its model, but Model::hasUnresolvedImports() is true");
+                        return;
+                    }
                 } else if (real && expected.count(Verdict::SAT) == 0 && !knownShape && expectedLenient.count(Verdict::SAT) != 0) {
                     // unsatisfiable only through a units import that the importer does not visit in a library model: the listed
                     // finding C07-K1 in another guise (the unvisited import is broken instead of merely unfetched) - the run goes on
